@@ -5,7 +5,11 @@ from .. import common
 from .. import fam_pipeline as fp
 from .. import pipeline as pl
 
-THEOREMS = ["C02.rewire_only_target", "C02.performer_skeleton", "C02.modify_skeleton", "C02.quantize_skeleton", "NFCheckProofs.nfOK_sound"]
+THEOREMS = ["C02.rewire_only_target", "C02.performer_skeleton", "C02.modify_skeleton", "C02.quantize_skeleton", "NFCheckProofs.nfOK_sound",
+            # C02b: the I/O contract END TO END
+            "C02.io_counts_names_shapes", "C02.uniqueName_form", "C02.uniqueName_fresh", "C02.io_signatures", "C02.sig_outputs_aligned",
+            "C02.io_float_unless_covered", "C02.io_dtype_unless_covered", "C02.outputNoQuant_of_nomatch",
+            "C02.E2E.shape_instance", "C02.E2E.sig_instance", "C02.E2E.float_instance", "C02.E2E.shipped_io_integer"]
 
 
 def run(ctx):
@@ -15,7 +19,17 @@ def run(ctx):
                 "regexes built from the model's tensor names) x random calibration data; every case goes through the real pipeline, the "
                 "graph stage is compared with the Lean model, the returned bytes are compared with the input graph after erasing inserted QUANTIZE/DEQUANTIZE ops "
                 "(independent Python implementation), signatures vs subgraph IO, float IO unless INPUT/OUTPUT is covered; distinct = distinct (model, recipe) pairs")
-    common.proof_side(ctx, THEOREMS, modules=["QProps.C02", "QProofs.NFCheckProofs"])
+    ctx.explanation = ("END TO END on the model, for every model in normal form, recipe state, regex semantics and statistics on which quantizePure "
+                       "succeeds: erasing the inserted operators gives back the input graph (quantize_skeleton); graph inputs are never "
+                       "retargeted and keep name/shape/buffer; every output position holds the original tensor or a new tensor of the same shape "
+                       "standing for it, created by an inserted QUANTIZE/DEQUANTIZE and named <name>_quantized/_dequant made unique "
+                       "(io_counts_names_shapes, uniqueName_form/_fresh); every signature keeps key, subgraph, argument names and follows a "
+                       "retargeted output at every position (io_signatures, sig_outputs_aligned); if INPUT resolves to no-quantize every graph "
+                       "input keeps its record, if OUTPUT does every output position has the original dtype and no parameters "
+                       "(io_float_unless_covered, io_dtype_unless_covered); OUTPUT has the empty scope, so a rule covers it only if its regex "
+                       "matches the empty string (outputNoQuant_of_nomatch). Operator options are represented by the orig tag (untouched by "
+                       "construction of the model) and compared by execution.")
+    common.proof_side(ctx, THEOREMS, modules=["QProps.C02", "QProps.C02b", "QProofs.NFCheckProofs"])
     drv = common.Driver()
     def per_case(case, res):
         if res["status"] == "ok":
